@@ -197,6 +197,7 @@ structure Site where
   writes : Bool         -- `cache[key] = …`, `.clear()`, `.pop()`
   guarded : Bool        -- every read is protected by a membership test whose miss branch computes and stores
   asserts : Bool        -- a miss is an `assert` failure
+  unreachable : Bool    -- the unguarded read sits behind `if self.operand(X) is not None: return …` and every constructor call passes X
   observable : Bool     -- `func` is (called from) `_meta` / `_divisions` / `_layer` / `npartitions` of an expression class
   key : String          -- source text of the key expression(s)
   uncovered : List String  -- inputs of the memoised computation (parameters, self.x) the key does not mention
